@@ -7,7 +7,7 @@ import subprocess
 import time
 
 import buildlib
-from buildlib import VERIF, BUILD
+from buildlib import VERIF, BUILD, RUN_ROOT
 
 
 def _check():
@@ -17,7 +17,7 @@ def _check():
 
 def _build_fuzz(stage):
     return buildlib.build_harness(stage["src"], "fuzz", stage.get("flags", ()), stage.get("link", ()),
-                                  stage.get("extra_srcs", ()), stage.get("deps", ()) + ("fuzz/fuzz_common.hh",),
+                                  stage.get("extra_srcs", ()), tuple(stage.get("deps", ())) + ("fuzz/fuzz_common.hh",),
                                   rapidcheck=False, lib_defs=stage.get("lib_defs", ()))
 
 
@@ -62,7 +62,7 @@ def run_fuzz_stage(pid, stage, tier, seed, known_sigs, only=None):
     ck = _check()
     res = ck.StageResult(stage["name"])
     exe = _build_fuzz(stage)
-    out = os.path.join(BUILD, "run", pid, stage["name"])
+    out = os.path.join(RUN_ROOT, pid, stage["name"])
     shutil.rmtree(out, ignore_errors=True)
     os.makedirs(out)
     corpus = os.path.join(out, "corpus")
@@ -92,8 +92,9 @@ def run_fuzz_stage(pid, stage, tier, seed, known_sigs, only=None):
     def launch(k):
         nonlocal launches
         remaining = int(t_end - time.time())
-        if remaining < 2:
+        if launches >= workers and remaining < 2:
             return
+        remaining = max(remaining, 5)
         launches += 1
         # -seed=0 means "random" to libFuzzer: remap
         s = (seed * 1000 + launches) % 2000000000 + 1
@@ -139,13 +140,37 @@ def run_fuzz_stage(pid, stage, tier, seed, known_sigs, only=None):
     res.notes.append("%s: %d workers x %ds, libFuzzer seeds derived from VERIF_SEED=%d" % (stage["name"], workers, secs, seed))
     # artifacts: only crash-/leak- count; timeout/oom/slow-unit are load noise
     by_sig = {}
+    timeouts_checked = 0
     for fn in sorted(os.listdir(out)):
         if not fn.startswith("art-"):
             continue
-        if "crash-" not in fn and "leak-" not in fn:
-            res.add_counts(res.excluded, {"libfuzzer-noise-artifact(timeout/oom/slow-unit)": 1})
-            continue
         path = os.path.join(out, fn)
+        if "timeout-" in fn:
+            # load can produce spurious timeouts; a hang is only reported when the input exceeds a 90 s limit
+            # in each of three fresh runs (one confirmed hang is enough: later timeout artifacts are not re-run)
+            if ("%s/hang" % stage["name"]) in by_sig or timeouts_checked >= 4:
+                continue
+            timeouts_checked += 1
+            hung = 0
+            for _ in range(3):
+                try:
+                    p = subprocess.run([exe, "-timeout=90", path], stdout=subprocess.PIPE, stderr=subprocess.STDOUT, env=env, timeout=200)
+                    if b"libFuzzer: timeout" in p.stdout:
+                        hung += 1
+                except subprocess.TimeoutExpired:
+                    hung += 1
+            if hung == 3:
+                sig = "%s/hang" % stage["name"]
+                if sig in known_sigs:
+                    res.add_counts(res.excluded, {"known-finding:" + sig: 1})
+                elif sig not in by_sig or os.path.getsize(path) < by_sig[sig][0]:
+                    by_sig[sig] = (os.path.getsize(path), path, "input does not terminate within 90 s (3 of 3 runs)")
+            else:
+                res.add_counts(res.excluded, {"libfuzzer-noise-artifact(timeout that did not reproduce)": 1})
+            continue
+        if "crash-" not in fn and "leak-" not in fn:
+            res.add_counts(res.excluded, {"libfuzzer-noise-artifact(oom/slow-unit)": 1})
+            continue
         ok, sig, text = _classify_artifact(exe, path, env)
         if not ok:
             res.notes.append("artifact %s did not reproduce in 3 runs (ignored)" % fn)
@@ -169,12 +194,19 @@ def run_fuzz_stage(pid, stage, tier, seed, known_sigs, only=None):
 
 def replay_fuzz_stage(pid, stage, path, times=1):
     exe = _build_fuzz(stage)
-    out = os.path.join(BUILD, "run", pid, stage["name"] + "-replay")
+    out = os.path.join(RUN_ROOT, pid, stage["name"] + "-replay")
     os.makedirs(out, exist_ok=True)
     kf = os.path.join(out, "known.txt")
     open(kf, "w").close()
     env = _fuzz_env(out, kf)
     ok, sig, text = _classify_artifact(exe, path, env, max(1, times))
     if not ok:
+        # a hang?
+        try:
+            p = subprocess.run([exe, "-timeout=90", path], stdout=subprocess.PIPE, stderr=subprocess.STDOUT, env=env, timeout=200)
+            if b"libFuzzer: timeout" in p.stdout:
+                return ("crash", "%s/hang" % stage["name"], p.stdout.decode("latin-1")[-2000:])
+        except subprocess.TimeoutExpired:
+            return ("crash", "%s/hang" % stage["name"], "no result within 200 s")
         return ("pass", None, text)
     return ("fail" if "VERIF-FAIL" in text else "crash", "%s/%s" % (stage["name"], sig), text)
